@@ -8,14 +8,14 @@ from sym import *  # noqa
 from ir import *  # noqa
 
 
-def struct_literal_fields(F, b, W=None):
+def struct_literal_fields(F, b, W=None, inline=None):
     """{field: term} of the (single) struct literal returned by a constructor body."""
     out = []
 
     def on_node(Wk, n, K):
         if n.get("k") == "Struct" and range_of(F, n) is None and "ops::Range" not in (F.defpath(n) or ""):
             out.append({f["name"]: Wk.T.term(f["e"]) for f in n["fields"]})
-    Walker(F, b, on_node=on_node).run()
+    Walker(F, b, on_node=on_node, inline=inline).run()
     return out
 
 
@@ -233,7 +233,7 @@ class Inliner:
                 e = e["expr"]
             if e.get("k") in ("Field", "Path", "Lit") or (e.get("k") in ("Call", "MethodCall") and all(a.get("k") in ("Path", "Field") for a in call_args(e))):
                 self.simple.setdefault(b.name, []).append((b, e))
-            elif e.get("k") in ("Tup", "Binary") and self._pure_arith(e):
+            elif e.get("k") in ("Tup", "Binary", "MethodCall") and self._pure_arith(e):
                 # a helper returning a pair/expression of plain arithmetic on fields and parameters
                 self.simple.setdefault(b.name, []).append((b, e))
         self.depth = 0
@@ -252,6 +252,9 @@ class Inliner:
             return all(self._pure_arith(c, depth + 1) for c in kids(e))
         if k == "Block" and not e["stmts"] and "expr" in e:
             return self._pure_arith(e["expr"], depth + 1)
+        # `a.checked_mul(b).expect(..)`: the same product over ideal integers (the rules reason over those)
+        if k == "MethodCall" and e["name"] in ("expect", "unwrap") and e["recv"].get("k") == "MethodCall" and e["recv"]["name"] in ("checked_mul", "checked_add", "checked_sub"):
+            return all(self._pure_arith(c, depth + 1) for c in call_args(e["recv"]))
         return False
 
     def try_inline(self, cn, args, n, T):
@@ -383,3 +386,99 @@ def r03_9(ctx, rr):
         rr.ob(ok, key="EliasFanoBuilder::build:all-values-pushed")
         if not ok:
             rr.violate("EliasFanoBuilder::build:all-values-pushed", "EliasFanoBuilder::build creates the structure without establishing `count == n`: with fewer than n values pushed the result claims n elements, and every access to an index >= count selects a one that does not exist (out-of-bounds scan of the high bits)", F.loc(n))
+
+
+def _ieval(t, env):
+    """Integer evaluation of a term over usize semantics (None when a construct is not understood)."""
+    k = t[0]
+    if k == "int":
+        return t[1]
+    if k == "bool":
+        return 1 if t[1] else 0
+    if k == "var":
+        return env.get(t[1])
+    if k == "cast":
+        return _ieval(t[2], env)
+    if k == "ite":
+        c = _ieval(t[1], env)
+        if c is None:
+            return None
+        return _ieval(t[2] if c else t[3], env)
+    if k == "op":
+        if t[1] in ("&&", "||"):
+            a = _ieval(t[2], env)
+            if a is None:
+                return None
+            if t[1] == "&&" and not a:
+                return 0
+            if t[1] == "||" and a:
+                return 1
+            return _ieval(t[3], env)
+        if t[1] == "!" and len(t) == 3:
+            a = _ieval(t[2], env)
+            return None if a is None else (0 if a else 1)
+        a, b = _ieval(t[2], env), _ieval(t[3], env)
+        if a is None or b is None:
+            return None
+        try:
+            return {"+": lambda: a + b, "-": lambda: a - b, "*": lambda: a * b, "/": lambda: a // b, "%": lambda: a % b,
+                    ">>": lambda: a >> b, "<<": lambda: a << b, "min": lambda: min(a, b), "max": lambda: max(a, b),
+                    "<": lambda: int(a < b), "<=": lambda: int(a <= b), ">": lambda: int(a > b), ">=": lambda: int(a >= b),
+                    "==": lambda: int(a == b), "!=": lambda: int(a != b), "&": lambda: a & b, "|": lambda: a | b}[t[1]]()
+        except (KeyError, ZeroDivisionError, ValueError):
+            return None
+    if k == "call" and t[1] in ("int::ilog2",) and len(t[2]) == 1:
+        a = _ieval(t[2][0], env)
+        return None if a is None or a <= 0 else a.bit_length() - 1
+    if k == "call" and t[1] in ("int::div_ceil",) and len(t[2]) == 2:
+        a, b = _ieval(t[2][0], env), _ieval(t[2][1], env)
+        return None if a is None or not b else -(-a // b)
+    if k == "call" and t[1] in ("int::saturating_sub",) and len(t[2]) == 2:
+        a, b = _ieval(t[2][0], env), _ieval(t[2][1], env)
+        return None if a is None or b is None else max(0, a - b)
+    return None
+
+
+@rule("R11.8", props=["C11", "C03"], floor=2, title="Elias-Fano builders: n*l + (number of high bits) stays within n(2 + max(0, lg(u/n))) + a few words on a grid of (n, u), the empty sequence and u < n included")
+def r11_8(ctx, rr):
+    """R03.3 fixes the *shape* of l and of the two sizes; this rule evaluates them. The grid contains every
+    regime: n = 0 (the bound is a constant: l must absorb u), n = 1, u < n, u = n, u a little above a power of
+    two times n, u = 2^63."""
+    import math
+    F = ctx.F()
+    grid = [(n, u) for n in (0, 1, 2, 3, 7, 64, 1000, 10 ** 6) for u in (0, 1, 2, 5, 63, 64, 1000, 1 << 20, (1 << 28) + 5, 1 << 40, (1 << 63) + 12345)]
+    for path in (r"^dict::elias_fano::EliasFanoBuilder::new$", r"^dict::elias_fano::EliasFanoConcurrentBuilder::new$"):
+        b = F.one(path)
+        sl = struct_literal_fields(F, b)
+        if len(sl) != 1:
+            raise AnchorMissing("%s: expected exactly one struct literal" % b.key)
+        ren = param_roles(b, ["n", "u"])
+        L = {k: rename_vars(v, ren) for k, v in sl[0].items()}
+        l_t = L.get("l", ("unk", "?"))
+        high = L.get("high_bits", ("unk", "?"))
+        low = L.get("low_bits", ("unk", "?"))
+        if not (high[0] == "call" and len(high[2]) == 1 and low[0] == "call" and len(low[2]) == 2):
+            raise AnchorMissing("%s: low_bits/high_bits are not constructor calls" % b.key)
+        worst = None
+        unevaluated = 0
+        for n, u in grid:
+            env = {"n": n, "u": u}
+            lv = _ieval(l_t, env)
+            hv = _ieval(high[2][0], env)
+            wv = _ieval(low[2][0], env)
+            cnt = _ieval(low[2][1], env)
+            if None in (lv, hv, wv, cnt):
+                unevaluated += 1
+                continue
+            bits = wv * cnt + hv
+            bound = (n * (2 + max(0.0, math.log2(u / n) if u > 0 else 0.0)) if n > 0 else 0.0) + 192
+            if bits > bound and (worst is None or bits - bound > worst[0]):
+                worst = (bits - bound, n, u, lv, bits, bound)
+        rr.instances += 1
+        key = "%s:size-within-bound-on-grid" % short_fn(b.key)
+        if unevaluated > len(grid) // 4:
+            rr.violate(key + ":evaluable", "reason=anchor-missing: %s: the size formulas could not be evaluated on %d of %d grid points (l = %s)" % (b.key, unevaluated, len(grid), tshow(l_t)[:160]), b.span)
+            continue
+        rr.ob(worst is None, key=key, sample={"fn": b.key, "grid_points": len(grid), "unevaluated": unevaluated})
+        if worst is not None:
+            rr.violate(key, "%s: for n = %d, u = %d it chooses l = %d and allocates %d bits, above the documented n(2 + max(0, lg(u/n))) = %.0f bits plus three words" % (b.key, worst[1], worst[2], worst[3], worst[4], worst[5] - 192), b.span)
